@@ -111,7 +111,15 @@ func genBWorld(r *Rng, faulty bool) (*BWorld, []BOp) {
 						case x < 35:
 							d.Decls = append(d.Decls, BDecl{Kind: "r", Pkg: w.Pkgs[r.Intn(npk)].Addr, Sub: r.Pick(bSubPool), Finder: r.Intn(2)})
 						case x < 55 && nreg > 0:
-							d.Decls = append(d.Decls, BDecl{Kind: "g", Pkg: w.Regs[r.Intn(nreg)].Addr, Sub: r.Pick([]string{"", "", "k", "m"}), Allowed: pickAllowed(r, faulty), Finder: r.Intn(2)})
+							g := BDecl{Kind: "g", Pkg: w.Regs[r.Intn(nreg)].Addr, Sub: r.Pick([]string{"", "", "k", "m"}), Allowed: pickAllowed(r, faulty), Finder: r.Intn(2)}
+							d.Decls = append(d.Decls, g)
+							if r.Chance(35) {
+								// the same registry source once more from the same artefact, with another allowed
+								// set: both requests count (seed C17-e: reports de-duplicated without the set)
+								g2 := g
+								g2.Allowed = pickAllowed(r, faulty)
+								d.Decls = append(d.Decls, g2)
+							}
 						case x < 88:
 							rel := r.Pick(bRelPool)
 							if !faulty && strings.HasPrefix(rel, "../../") && strings.Count(sub, "/") < 1 {
